@@ -1,4 +1,5 @@
 import SJ.Proofs.Tables
+import SJ.Proofs.TrimEdgeAscii
 import SJ.Proofs.Number
 import SJ.Proofs.BlockScan
 import SJ.Generated.Consts
@@ -99,5 +100,13 @@ theorem C01_stage2_step_plan (m : M) (cfg : Cfg) (buf : Bytes) (idx peek : Nat) 
         | .ret => acts = [.scopeEnd] ∧ ∃ offset rest, m.stack = offset :: rest ∧ m'.stack = rest ∧
             some m'.st = retState (offset &&& UInt64.ofNat Generated.stage2RetMask).toNat) :=
   step_plan m cfg buf idx peek
+
+
+open SJ.TrimEdge in
+/-- **The edge of the claim.** `bytes.TrimSpace` removes exactly the JSON white space whenever the first and the last
+    byte that remain after removing JSON white space are ASCII other than VT/FF — in particular for every text that
+    trims to `{…}` or `[…]`, whatever it contains. Only inputs with non-JSON (Unicode, VT, FF) white space at the very
+    edges are outside. -/
+theorem C01_edge (input : Bytes) (h : PlainTrimEnds input) : EdgeOK input := edgeOK_of_trimEnds input h
 
 end SJ.Properties.C01
